@@ -12,7 +12,9 @@ import (
 	"fmt"
 	"math/rand"
 	"net"
+	"os"
 	"runtime"
+	"strings"
 	"sync"
 	"sync/atomic"
 	"time"
@@ -307,9 +309,32 @@ func main() {
 				}
 			}(j)
 		}
-		wg.Wait()
-		stop.Store(true)
-		rg.Wait()
+		finished := make(chan struct{})
+		go func() { wg.Wait(); stop.Store(true); rg.Wait(); close(finished) }()
+		stuck := false
+		for last, idle := log.Count(), 0; !stuck; {
+			select {
+			case <-finished:
+			case <-time.After(time.Second):
+				if n := log.Count(); n != last {
+					last, idle = n, 0
+				} else if idle++; idle >= 20 { // no call began or returned for 20 s: writers and readers are blocked for good
+					stuck = true
+				}
+				continue
+			}
+			break
+		}
+		if stuck {
+			buf := make([]byte, 1<<20)
+			buf = buf[:runtime.Stack(buf, true)]
+			nblocked := strings.Count(string(buf), "netutil.(*IPv4Filter)")
+			log.Buf().Emit(ev{K: "stuck", P: nblocked, Op: "no call of the filter began or returned for 20 s", C: []int{}, IP: []int{}})
+			maps, index := false, 0 // VerifState would block on the same lock
+			w.Put(map[string]any{"evs": log.Merge(), "maps": maps, "index": index, "run": run, "note": "deadlock"})
+			w.Close()
+			os.Exit(0) // the blocked goroutines cannot be recovered; the traces recorded so far are judged
+		}
 		// updates have stopped: the filter must agree with the set obtained from the programs
 		fin := log.Buf()
 		procs.Store(goid(), procInfo{fin, 50})
